@@ -535,6 +535,92 @@ Definition agg_guard (info : list entry) (refs : list sref) : bool :=
     | SOther _ => true
     end) refs.
 
+(* the hypothesis of C03_textual_refines_aggregate: agg_guard, and — because compile_component_aggregate searches
+   with a regular expression (the dots of the reference match any character), joins the copies with blanks and
+   splits the rewritten references at blanks again — (a) no two replicated references share a spelling, (b) every
+   declared reference and every copy is a single non-empty word, (c) no spelling of ANOTHER replicated reference
+   is found by the regular expression in the reference or in the joined list of its copies *)
+Definition rocc (k t : string) : bool := match rfind k t with Some _ => true | None => false end.
+Definition nonblank (s : string) : bool := negb (String.eqb s "") && negb (occurs " " s).
+Fixpoint nodup_str (l : list string) : bool :=
+  match l with [] => true | x :: r => negb (mem_str x r) && nodup_str r end.
+Definition rr_keys (rrs : list rref) : list string := flat_map (fun r => [rr_long r; rr_short r]) rrs.
+Definition rr_count (r : rref) : N := let '(_, _, _, _, n) := r in n.
+Definition rr_rews (r : rref) : list string := map (rr_rew r) (nseq (rr_count r)).
+Definition keys_unseen (r' : rref) (t : string) : bool := negb (rocc (rr_long r') t) && negb (rocc (rr_short r') t).
+
+Definition agg_ref_sep (info : list entry) (rrs : list rref) (r : sref) : bool :=
+  let s := spell r in
+  nonblank s &&
+  match r with
+  | SComp _ st p f m =>
+      match repl_count info (st, p) with
+      | Some n => let own := (st, p, f, m, n) in
+                  forallb nonblank (rr_rews own) &&
+                  forallb (fun r' => String.eqb (rr_long r') (rr_long own) ||
+                                     (keys_unseen r' s && keys_unseen r' (join " " (rr_rews own)))) rrs
+      | None => forallb (fun r' => keys_unseen r' s) rrs
+      end
+  | SOther _ => forallb (fun r' => keys_unseen r' s) rrs
+  end.
+
+Definition agg_sep (info : list entry) (refs : list sref) : bool :=
+  let rrs := repl_refs info refs in
+  agg_guard info refs && nodup_str (rr_keys rrs) && forallb (agg_ref_sep info rrs) refs.
+
+(* ------------------------------------------------------------------ argument strings of a copy *)
+(* what the rewriting is meant to do to the blank-separated tokens of command.arguments: a token that is a
+   declared spelling (a key of the table) becomes its rewritten form, every other token is untouched *)
+Definition tok_spec (L : list (string * string)) (tok : string) : string :=
+  match entry_of tok L with Some v => v | None => tok end.
+(* separation: no spelling contains a blank or is empty, and every token either is a spelling or contains none *)
+Definition tok_ok (L : list (string * string)) (tok : string) : bool :=
+  match entry_of tok L with Some _ => true | None => keys_absent L tok end.
+Definition args_sep (L : list (string * string)) (toks : list string) : bool :=
+  forallb (fun kv => nonblank (fst kv)) L && forallb (tok_ok L) toks.
+
+(* ------------------------------------------------------------------ the dataflow of the two layers *)
+(* edges of the structured expansion: one per component reference whose producer is a node *)
+Definition sedges_of (out : list socomp) : list (string * string) :=
+  let nodes := map (fun o => node_name (so_stage o) (so_name o)) out in
+  flat_map (fun o =>
+    flat_map (fun r => match r with
+                       | SComp _ s p _ _ => let pn := node_name s p in
+                                            if mem_str pn nodes then [(pn, node_name (so_stage o) (so_name o))] else []
+                       | SOther _ => []
+                       end) (so_refs o)) out.
+
+(* the guards of one component: those of its references (no_overlap for every copy / agg_sep) and the same
+   condition for its name, which the code passes through the same rewriting *)
+Definition name_unseen (rrs : list rref) (name : string) : bool := forallb (fun r' => keys_unseen r' name) rrs.
+
+Definition comp_guard (info : list entry) (sc : scomp) : bool :=
+  let rrs := repl_refs info (s_refs sc) in
+  match alookup (sid sc) info with
+  | Some (_, true) => agg_sep info (s_refs sc) && name_unseen rrs (s_name sc)
+  | Some (Some n, false) =>
+      if N.ltb 0 n
+      then forallb (fun i => no_overlap info i (s_refs sc) &&
+                             keys_absent (sorted_translation rrs i) (s_name sc ++ dec i)) (nseq n)
+      else true
+  | _ => true
+  end.
+
+(* the references are written in the spelling compile_reference prints (stage0.A, not stage00.A) *)
+Definition canonical_refs (cs : list tcomp) (scs : list scomp) : bool :=
+  list_eqb (list_eqb String.eqb) (map (fun sc => map spell (s_refs sc)) scs) (map t_refs cs).
+
+(* a printed reference is read back as the same reference (stage, producer, file, method, spelling) *)
+Definition rt_ref (st : N) (r : sref) : bool :=
+  match parse_full (spell r) st, r with
+  | Some (DComp a s p f m), SComp a' s' p' f' m' =>
+      Bool.eqb a a' && N.eqb s s' && String.eqb p p' && opt_str_eqb f f' && String.eqb m m'
+  | Some DOther, SOther _ => true
+  | _, _ => false
+  end.
+Definition rt_ok (out : list socomp) : bool :=
+  forallb (fun o => forallb (rt_ref (so_stage o)) (so_refs o)) out.
+
 (* ------------------------------------------------------------------ the checker of the correspondence *)
 Definition ocomp_eqb (a b : ocomp) : bool :=
   N.eqb (o_stage a) (o_stage b) && String.eqb (o_name a) (o_name b) &&
@@ -560,9 +646,17 @@ Definition struct_agrees_one (info : list entry) (c : tcomp) (sc : scomp) : bool
                           | Some i => no_overlap info i (s_refs sc)
                           | None => agg_guard info (s_refs sc)
                           end in
-             if guard then String.eqb (so_name so) (o_name o) &&
-                           list_eqb String.eqb (map spell (so_refs so)) (o_refs o)
-             else true) (combine souts touts).
+             (if guard then String.eqb (so_name so) (o_name o) &&
+                            list_eqb String.eqb (map spell (so_refs so)) (o_refs o)
+              else true) &&
+             (* executable form of C03_textual_arguments_replica *)
+             match so_replica so with
+             | Some i => let L := sorted_translation (repl_refs info (s_refs sc)) i in
+                         let toks := split_on " " (t_args c) in
+                         if no_overlap info i (s_refs sc) && args_sep L toks && String.eqb (join " " toks) (t_args c)
+                         then String.eqb (o_args o) (join " " (map (tok_spec L) toks)) else true
+             | None => true
+             end) (combine souts touts).
 
 Fixpoint struct_agrees (info : list entry) (cs : list tcomp) (scs : list scomp) : bool :=
   match cs, scs with
@@ -578,7 +672,13 @@ Definition struct_check (w : twf) : bool :=
                 | None => true
                 | Some info => struct_agrees info (w_comps w) scs &&
                                list_eqb (list_eqb String.eqb) (map (fun sc => map spell (s_refs sc)) scs)
-                                        (map t_refs (w_comps w))
+                                        (map t_refs (w_comps w)) &&
+                               (* executable form of C03_textual_dataflow, and of its round-trip hypothesis *)
+                               (if forallb (comp_guard info) scs
+                                then rt_ok (expand_with info scs) &&
+                                     list_eqb pair_str_eqb (edges_of (expand_all_t info (w_comps w) scs))
+                                              (sedges_of (expand_with info scs))
+                                else true)
                 end
   end.
 
